@@ -1,12 +1,18 @@
 """C17 - snapshot and restore reproduce the database exactly.
-Proof: coq/theories/Properties/C17.v (models Db/Content.v, Db/Timeline.v, Db/Snapshot.v, Db/RwLock.v).
+Proof: coq/theories/Properties/C17.v (models Db/Content.v, Db/Timeline.v, Db/Snapshot.v, Db/RwLock.v,
+Db/Reader.v, Db/RestoreX.v, Db/RestoreJoin.v).
 Correspondence: histories (state A through real stores and raw writes; Snapshot / SnapshotInTx in a
-read or write transaction / StreamToWriter; arbitrary further operations; RestoreSnapshot;
-GetSnapshotId; GetTimelineId in every mode; restore listeners) executed on boltz.DbImpl and on the
-extracted model, full content compared after every operation; plus transactions racing restores
-in child processes with a watchdog (all-old-or-all-new, no error, no deadlock)."""
+read or write transaction / StreamToWriter; arbitrary further operations; RestoreSnapshot and
+RestoreFromReader through readers of every behaviour the io.Reader contract allows - chunk sizes,
+zero-length reads, EOF with or after the last bytes, an error after k bytes, WriterTo / Seeker /
+file / buffered flavours; GetSnapshotId; GetTimelineId in every mode; restore listeners, also ones
+that use the database) executed on boltz.DbImpl and on the extracted model, full content compared
+after every operation, every restore under a watchdog; plus transactions racing restores in child
+processes with a watchdog (all-old-or-all-new, no error, no deadlock)."""
 import json
 import os
+import resource
+import subprocess
 
 import vlib
 
@@ -17,6 +23,8 @@ META = "6d657461"
 SNAPID = META + "/736e617073686f744964"
 RESET = META + "/726573657454696d656c696e65"
 TLID = META + "/74696d656c696e654964"
+LSN = "6c736e"
+LT = "4c54"
 
 
 # ----------------------------------------------------------------------------- parsing
@@ -54,6 +62,10 @@ def split_ops(case):
             if kind == "upd":
                 i = wops(wops(i + 1))
         elif op == "restore":
+            i += 1
+        elif op == "restorer":
+            i += 8 + int(t[i + 7])
+        elif op in ("addlt", "addlw"):
             i += 1
         elif op == "tl":
             ok = t[i + 1]
@@ -102,7 +114,58 @@ def strip_markers(d):
     return d
 
 
+def touched(p):
+    """paths a restore listener that writes (GetTimelineId, an Update on the lsn bucket) may change"""
+    return p == LSN or p.startswith(LSN + "/") or p in (META, TLID, RESET)
+
+
+def strip_touched(d):
+    return dict((p, v) for p, v in d.items() if not touched(p))
+
+
+def fnv32(txt):
+    h = 0x811c9dc5
+    for ch in txt.encode():
+        h = ((h ^ ch) * 0x01000193) & 0xffffffff
+    return h
+
+
+def view_digest(raw):
+    """what a listener that walks the database must see of a restored file (raw = text of F[...])"""
+    ents = [] if raw in ("-", "", None) else [e for e in raw.split(",") if not touched(e[2:].split("=", 1)[0])]
+    return "v:%d:%08x" % (len(ents), fnv32(",".join(ents) if ents else "-"))
+
+
+def reader_script(op):
+    """restorer <k> <flavour> <len> <eofd> <failAt|-> <failWd> <rest> <npre> <pre>... -> dict"""
+    ln = int(op[3])
+    fa = None if op[5] == "-" else int(op[5])
+    return dict(k=int(op[1]), flavour=op[2], len=ln, eof_with_data=op[4] == "1", fail_at=fa, failing=fa is not None and fa <= ln,
+                rest=int(op[7]), pre=[int(x) for x in op[9:]])
+
+
 # ----------------------------------------------------------------------------- the property's own oracle
+
+def show_head(head):
+    """observation tokens with hex-encoded messages made readable"""
+    out = []
+    for t in head:
+        k = t.find(":")
+        if k > 0 and t[:k] in ("panic", "error", "unreadable", "harness-error"):
+            try:
+                t = t[:k + 1] + " " + bytes.fromhex(t[k + 1:]).decode("utf-8", "replace")
+            except ValueError:
+                pass
+        out.append(t)
+    return " ".join(out)
+
+
+def describe_reader(sc):
+    what = {"r": "Read only", "w": "io.WriterTo", "s": "io.ReadSeeker", "u": "bufio.Reader", "f": "*os.File", "b": "*bytes.Reader"}.get(sc["flavour"], sc["flavour"])
+    sizes = ("first reads %s, then " % sc["pre"] if sc["pre"] else "") + ("%d-byte reads" % sc["rest"] if sc["rest"] else "buffer-sized reads")
+    end = ("error after %d bytes" % sc["fail_at"]) if sc["failing"] else ("io.EOF together with the last bytes" if sc["eof_with_data"] else "separate (0, io.EOF)")
+    return "%s, %d bytes, %s, %s" % (what, sc["len"], sizes, end)
+
 
 def oracle(case, impl):
     """evaluate what the property demands on the implementation's observations of one history.
@@ -114,6 +177,7 @@ def oracle(case, impl):
     live_before = {}
     files = []          # per produced file: dict(kind, id, at_snapshot, op)
     listeners = 0
+    lkinds = []         # kinds of the registered restore listeners: c count, v view, s snapshot id, t timeline id, w write
     fired = 0
     pending = None      # after a restore of a snapshot: what the timeline requests must do
     for i, (op, g) in enumerate(zip(ops, groups)):
@@ -122,9 +186,9 @@ def oracle(case, impl):
         kind = op[0]
         if kind == "snap":
             if head[0] != "snap" or len(head) < 2 or head[1].startswith(("error", "unreadable")):
-                return ("C17:snapshot-failed", "snapshot operation failed: %s" % " ".join(head)[:200], i)
+                return ("C17:snapshot-failed", "snapshot operation failed: %s" % show_head(head)[:300], i)
             f = parse_dump(bracket(g, "F") or "-")
-            files.append(dict(kind="snap", id=head[1], at=live_before, op=i, content=f))
+            files.append(dict(kind="snap", id=head[1], at=live_before, op=i, content=f, raw=bracket(g, "F")))
             # the markers go into the copy
             if strip_markers(f) != strip_markers(live_before):
                 return ("C17:snapshot-content", "snapshot file differs from the content committed at snapshot time", i)
@@ -136,24 +200,62 @@ def oracle(case, impl):
                 return ("C17:snapshot-changes-live", "taking a snapshot changed the live database", i)
         elif kind == "stream":
             f = parse_dump(bracket(g, "F") or "-")
-            files.append(dict(kind="stream", id=None, at=live_before, op=i, content=f))
+            files.append(dict(kind="stream", id=None, at=live_before, op=i, content=f, raw=bracket(g, "F")))
             if head[0] != "stream" or f != live_before:
                 return ("C17:stream-content", "streamed copy differs from the committed content", i)
-        elif kind == "restore":
+        elif kind in ("restore", "restorer"):
             k = int(op[1])
+            sc = reader_script(op) if kind == "restorer" else None
+            how = "RestoreSnapshot" if sc is None else "RestoreFromReader(%s)" % describe_reader(sc)
+            if len(head) > 1 and head[1] == "hang":
+                return ("C17:restore-hangs", "%s did not return within the watchdog's time with %d restore listeners registered (%s): "
+                        "the restore and every later transaction are blocked" % (how, len(lkinds), ",".join(lkinds) or "none"), i)
+            if len(head) > 1 and head[1] == "listeners-stuck":
+                return ("C17:restore-hangs", "restore listeners started by %s never came back from the database (%s; listeners %s)"
+                        % (how, " ".join(head[2:]), ",".join(lkinds)), i)
             if k < len(files):
-                if head[0] != "restore":
-                    return ("C17:restore-failed", "restore failed: %s" % " ".join(head)[:200], i)
                 f = files[k]
-                if strip_markers(live) != strip_markers(f["at"]):
-                    return ("C17:restore-content", "content after restore differs from the content at snapshot time (file %d, taken by op %d)" % (k, f["op"]), i)
-                if f["kind"] == "snap" and (live.get(SNAPID) != "=05" + f["id"] or live.get(RESET) != "=0101"):
+                if sc is not None and sc["failing"]:
+                    # the reader reports an error after fail_at bytes: the restore must fail and change nothing
+                    if head[:2] != ["restore", "refused"]:
+                        return ("C17:restore-reader-error", "the reader failed after %d of %d bytes but the restore did not fail: %s"
+                                % (sc["fail_at"], sc["len"], " ".join(head)[:160]), i)
+                    if live != live_before:
+                        return ("C17:restore-reader-error", "a restore that failed (reader error after %d of %d bytes) changed the database"
+                                % (sc["fail_at"], sc["len"]), i)
+                    if int(head[2].split("=")[1]) != fired:
+                        return ("C17:restore-reader-error", "a restore that failed started restore listeners", i)
+                    live_before = live
+                    continue
+                if head[0] != "restore" or len(head) < 2 or not head[1].startswith("fired="):
+                    return ("C17:restore-failed", "%s failed: %s" % (how, show_head(head)[:300]), i)
+                writers = [x for x in lkinds if x in ("t", "w")]
+                want, got = strip_markers(f["at"]), strip_markers(live)
+                if writers:
+                    want, got = strip_touched(want), strip_touched(got)
+                if got != want:
+                    return ("C17:restore-content", "content after %s differs from the content at snapshot time (file %d, taken by op %d)" % (how, k, f["op"]), i)
+                if f["kind"] == "snap" and (live.get(SNAPID) != "=05" + f["id"] or ("t" not in lkinds and live.get(RESET) != "=0101")):
                     return ("C17:restore-markers", "restored database lacks the markers of its snapshot", i)
                 fired += listeners
                 got = int(head[1].split("=")[1])
                 if got != fired:
                     return ("C17:restore-listeners", "restore listeners fired %d times in total, expected %d" % (got, fired), i)
-                pending = dict(stage=0, id=f["id"]) if f["kind"] == "snap" else None
+                if any(x != "c" for x in lkinds):
+                    sobs = bracket(g, "S")
+                    sobs = sobs.split(",") if sobs else []
+                    if len(sobs) != len(lkinds):
+                        return ("C17:restore-listeners", "%d restore listeners reported, %d are registered" % (len(sobs), len(lkinds)), i)
+                    for n, (lk, so) in enumerate(zip(lkinds, sobs)):
+                        if so == "-" or so.endswith(":err"):
+                            return ("C17:restore-listener-error", "restore listener %d (%s) failed to use the database after the restore: %s" % (n, lk, so), i)
+                        if lk == "s" and f["kind"] == "snap" and so != "s:" + f["id"]:
+                            return ("C17:snapshot-id", "a restore listener asking GetSnapshotId got %s, the snapshot call returned %s" % (so, f["id"]), i)
+                        if lk == "v" and so != view_digest(f["raw"]):
+                            return ("C17:restore-listener-view", "a restore listener reading the database saw %s, the restored file holds %s" % (so, view_digest(f["raw"])), i)
+                        if lk == "t" and f["kind"] == "snap" and so != "t:" + LT:
+                            return ("C17:timeline-fresh-once", "a restore listener's GetTimelineId after the restore returned %s instead of the fresh id" % so, i)
+                pending = dict(stage=0, id=f["id"], tl_ok="t" not in lkinds) if f["kind"] == "snap" else None
             else:
                 pending = None
         elif kind == "snapid":
@@ -163,6 +265,8 @@ def oracle(case, impl):
         elif kind == "tl":
             called = "called=1" in head
             res = head[1]
+            if pending is not None and not pending.get("tl_ok", True):
+                pending = None      # a listener's GetTimelineId already consumed the fresh request
             if pending is not None:
                 if pending["stage"] == 0:
                     if not called:
@@ -170,7 +274,7 @@ def oracle(case, impl):
                     if op[2] == "ok":
                         if res != "id:" + op[3]:
                             return ("C17:timeline-fresh-once", "first GetTimelineId after a restore returned %s instead of the fresh id" % res, i)
-                        pending = dict(stage=1, id=pending["id"], tl=op[3])
+                        pending = dict(stage=1, id=pending["id"], tl=op[3], tl_ok=True)
                     elif res != "err":
                         return ("C17:timeline-fresh-once", "GetTimelineId returned %s although idF failed" % res, i)
                 elif pending["stage"] == 1:
@@ -181,13 +285,34 @@ def oracle(case, impl):
         elif kind == "tx":
             if pending is not None and not (op[1] == "0" or head[:2] == ["tx", "err"]):
                 pending = None      # a committed transaction may rewrite the meta bucket
-        elif kind == "addl":
+        elif kind.startswith("addl"):
             listeners += 1
+            lkinds.append(kind[4:] or "c")
         live_before = live
     return None
 
 
 # ----------------------------------------------------------------------------- main
+
+def run_model(model, cases_path, out_path, timeout=1800):
+    """the extracted model walks the bytes of a file (up to a few hundred thousand) by structural
+    recursion: give it stack, and a minor heap large enough that the collector rarely scans it"""
+    def limits():
+        soft, hard = resource.getrlimit(resource.RLIMIT_STACK)
+        want = 4 << 30
+        if hard != resource.RLIM_INFINITY and hard < want:
+            want = hard
+        resource.setrlimit(resource.RLIMIT_STACK, (want, hard))
+    env = dict(os.environ, OCAMLRUNPARAM="s=8M")
+    with open(cases_path) as fin, open(out_path, "w") as fout:
+        try:
+            p = subprocess.run([model, "c17"], stdin=fin, stdout=fout, stderr=subprocess.PIPE, timeout=timeout, preexec_fn=limits, env=env)
+        except subprocess.TimeoutExpired:
+            raise RuntimeError("model run timed out: %s" % model)
+    if p.returncode != 0:
+        raise RuntimeError("model run failed: %s\n%s" % (model, p.stderr.decode("utf-8", "replace")[-2000:]))
+    return vlib.read_lines(out_path)
+
 
 def run_pair(c, harness, model, extra):
     rc, out = vlib.run([harness, "c17", "--out", c.work] + extra, timeout=3000)
@@ -195,52 +320,97 @@ def run_pair(c, harness, model, extra):
         return None, None, None, "harness failed rc=%s: %s" % (rc, out[-800:])
     cases = vlib.read_lines(os.path.join(c.work, "cases.txt"))
     impl = vlib.read_lines(os.path.join(c.work, "impl.txt"))
-    modl = vlib.run_model(model, "c17", os.path.join(c.work, "cases.txt"), os.path.join(c.work, "model.txt"))
+    modl = run_model(model, os.path.join(c.work, "cases.txt"), os.path.join(c.work, "model.txt"))
     return cases, impl, modl, None
 
 
-def replay_case(c, harness, case):
-    """re-run one case line on the implementation; returns its observation line"""
+def replay_case(c, harness, case, hangms=0, listenms=0):
+    """re-run one case line on the implementation; returns (the case as executed, its observation line).
+    The executed case can differ from the requested one: a history stops at a restore that hangs, and a
+    reader's length is that of the file actually produced."""
     sub = os.path.join(c.work, "shrink")
     os.makedirs(sub, exist_ok=True)
     rin = os.path.join(sub, "in.txt")
     with open(rin, "w") as f:
         f.write(case + "\n")
-    rc, out = vlib.run([harness, "c17", "--out", sub, "--replaycase", rin, "--seed", str(c.seed)], timeout=600)
+    cmd = [harness, "c17", "--out", sub, "--replaycase", rin, "--seed", str(c.seed)]
+    if hangms:
+        cmd += ["--hangms", str(hangms)]
+    if listenms:
+        cmd += ["--listenms", str(listenms)]
+    rc, out = vlib.run(cmd, timeout=600)
     if rc != 0:
-        return None
+        return None, None
+    cl = vlib.read_lines(os.path.join(sub, "cases.txt"))
     lines = vlib.read_lines(os.path.join(sub, "impl.txt"))
-    return lines[0] if lines else None
+    return (cl[0], lines[0]) if lines and cl else (None, None)
+
+
+def simpler_readers(op):
+    """candidates that replace a restore through a reader by simpler ones"""
+    if op[0] != "restorer":
+        return
+    yield ["restore", op[1]]
+    sc = reader_script(op)
+    if sc["pre"]:
+        yield op[:8] + ["0"]
+    if op[2] != "r":
+        yield op[:2] + ["r"] + op[3:]
+    if op[7] not in ("0", op[3]):
+        yield op[:7] + ["0"] + op[8:]
+        yield op[:7] + [op[3]] + op[8:]
 
 
 def shrink(c, harness, case, key, budget=40):
-    """cut the history after the offending operation, then greedily drop operations that do not
-    produce files (so restore indexes stay valid) while the same violation remains"""
-    ops = split_ops(case)
-    impl = replay_case(c, harness, case)
-    v = oracle(case, impl) if impl else None
-    if not v or v[0] != key:
+    """cut the history after the offending operation, greedily drop operations that do not produce
+    files (so restore indexes stay valid), then simplify the readers - while the same violation remains"""
+    hang = 0
+    if key == "C17:restore-hangs":      # every attempt that still hangs costs the watchdog's time
+        hang, budget = 400, min(budget, 25)
+
+    def attempt(ops):
+        cl, im = replay_case(c, harness, join_ops(ops), hang, 400)    # short waits while searching, full ones for the verdict
+        vv = oracle(cl, im) if im else None
+        if vv and vv[0] == key:
+            return split_ops(cl)[:vv[2] + 1]
+        return None
+
+    ops = attempt(split_ops(case))
+    if ops is None:
         return case
-    ops = ops[:v[2] + 1]
     i = 0
     while i < len(ops) - 1 and budget > 0:
         if ops[i][0] in ("snap", "stream"):
             i += 1
             continue
-        cand = ops[:i] + ops[i + 1:]
-        cl = join_ops(cand)
         budget -= 1
-        im = replay_case(c, harness, cl)
-        vv = oracle(cl, im) if im else None
-        if vv and vv[0] == key:
-            ops = cand[:vv[2] + 1]
+        r = attempt(ops[:i] + ops[i + 1:])
+        if r is not None:
+            ops = r
         else:
             i += 1
-    return join_ops(ops)
+    for i in range(len(ops)):
+        progress = True
+        while progress and budget > 0:
+            progress = False
+            for cand in simpler_readers(ops[i]):
+                budget -= 1
+                r = attempt(ops[:i] + [cand] + ops[i + 1:])
+                if r is not None and len(r) == len(ops):
+                    ops = r
+                    progress = True
+                    break
+    # the verdict on the shrunk history must hold with the full watchdog time as well
+    cl, im = replay_case(c, harness, join_ops(ops))
+    vv = oracle(cl, im) if im else None
+    if vv and vv[0] == key:
+        return cl
+    return case
 
 
 RACE_KEYS = {"snapshot": "C17:recursive-rlock-deadlock", "rootbucket": "C17:recursive-rlock-deadlock",
-             "snapintx": "C17:recursive-rlock-deadlock"}
+             "snapintx": "C17:recursive-rlock-deadlock", "nested": "C17:recursive-rlock-deadlock",
+             "listeners": "C17:restore-hangs"}
 
 
 def classify_race(c, case, impl, where=""):
@@ -257,7 +427,7 @@ def classify_race(c, case, impl, where=""):
         return
     if f[1] == "stuck":
         key = RACE_KEYS.get(mode, "C17:restore-deadlock-" + mode)
-        c.violation(key, "transactions racing RestoreSnapshot stopped making progress%s (%s)" % (where, detail or "mode %s: child timed out" % mode), rp)
+        c.violation(key, "transactions racing restores stopped making progress%s (%s)" % (where, detail or "mode %s: child timed out" % mode), rp)
     elif f[1] == "mixture":
         c.violation("C17:restore-mixture", "a transaction racing RestoreSnapshot saw a mixture of databases%s: %s" % (where, detail), rp)
     elif f[1] == "error":
@@ -274,16 +444,20 @@ def main(argv):
     c.cov["trusted_base"] = [
         "Coq 8.16.1 kernel (coqc; coqchk in the thorough tier); vm_compute in Examples only; no axioms",
         "hand-written models Db/Content.v, Db/Timeline.v, Db/Snapshot.v of boltz/db.go (snapshot/restore/timeline bookkeeping)",
+        "Db/Reader.v: the io.Reader contract as scripts (chunk sizes, zero-length reads, EOF with/after data, failure position) and io.Copy's loop; Db/RestoreX.v: RestoreFromReader + database-using listeners on top of Db/Snapshot.v; the bytes of a file are abstract (positions), bbolt's file format is not modelled",
+        "Db/RestoreJoin.v: listeners as transaction threads gated by the reopen, on top of Db/RwLock.v",
         "Db/RwLock.v: sync.RWMutex modelled by its specification (readers exclude the writer; optional writer preference)",
         "NOT modelled, exercised only: os.Rename, bbolt Open/Close/CopyFile/WriteTo, sync.RWMutex, goroutine scheduling (all schedules are quantified over on the model only)",
         "uuid.NewString freshness (model: a counter)",
         "extraction (ExtrOcamlBasic only) + extraction/c17_driver.ml + drv_common.ml",
-        "Go harness cmd/storageharness/c17.go, c17_stores.go (generators, bbolt walk, diff of store transactions into raw writes) and this comparison",
+        "Go harness cmd/storageharness/c17.go, c17_stores.go, c17_readers.go (generators, scripted readers, listeners, watchdog, bbolt walk, diff of store transactions into raw writes) and this comparison",
     ]
     c.assumptions = [
         "meta/snapshotId, meta/timelineId hold strings or nil, meta/resetTimeline a bool or nil (what the library and the generated transactions write)",
         "transactions obtain their bbolt transaction through Db.View/Update/Batch (so they hold the read lock)",
         "one restore at a time in the racing runs (the model covers any number of restorers)",
+        "restore listeners that write do so outside the snapshot markers (own keys of a bucket lsn, GetTimelineId): the content oracle ignores exactly those paths when such listeners are registered",
+        "a restore (copy of <= a few hundred KB, close, two renames, open) and its listeners finish within the watchdog's 3 s unless something blocks them",
     ]
     proof_ok = c.proof_step(FILES)
     model = vlib.build_model("C17")
@@ -319,14 +493,19 @@ def main(argv):
         ops = split_ops(case)
         nops += len(ops)
         kinds = [o[0] for o in ops]
-        if "restore" in kinds and "snap" in kinds:
+        if ("restore" in kinds or "restorer" in kinds) and "snap" in kinds:
             distinct.add(case)
         v = oracle(case, i)
         if v:
             key, msg, at = v
             if key not in reported:
                 small = shrink(c, harness, case, key) if not c.replay else case
-                simpl = replay_case(c, harness, small) if small != case else i
+                simpl = replay_case(c, harness, small)[1] if small != case else i
+                v2 = oracle(small, simpl) if simpl else None
+                if v2 and v2[0] == key:      # describe the shrunk history
+                    msg, at, ops = v2[1], v2[2], split_ops(small)
+                else:
+                    small, simpl = case, i
                 c.violation(key, msg + " [operation %d: %s]" % (at, " ".join(ops[at])[:120]),
                             dict(case=small, impl=simpl, original_case=case, operation=at))
                 reported.add(key)
@@ -362,8 +541,12 @@ def main(argv):
     c.cov["distinct_nontrivial"] = len(distinct)
     c.cov["disagreements_checked"] = len(disagreements)
     c.cov["rule"] = ("evaluations = operations executed on both sides (full content compared after each) + racing runs. "
-                     "Non-trivial = distinct histories that contain a snapshot and a restore, + distinct racing modes "
-                     "(plain Update/View, Batch, Db.Snapshot, RootBucket in a transaction, SnapshotInTx in a write transaction)")
+                     "Non-trivial = distinct histories that contain a snapshot and a restore (RestoreSnapshot or RestoreFromReader), + distinct racing modes "
+                     "(plain Update/View, Batch, Db.Snapshot, RootBucket in a transaction, SnapshotInTx in a write transaction, "
+                     "nested Db.Update/Batch joining the context's transaction, database-using restore listeners + chunked readers)")
+    rd = [o for x in cases if x.startswith("H") for o in split_ops(x) if o[0] == "restorer"]
+    c.cov["reader_restores"] = len(rd)
+    c.cov["reader_behaviours_distinct"] = len(set(" ".join(o[2:]) for o in rd))
     hs = [k for k, x in enumerate(cases) if x.startswith("H")]
     c.cov["samples"] = [dict(case=cases[k][:1500], impl=impl[k][:1500], model=modl[k][:1500]) for k in (hs[:1] + hs[-1:])]
     try:
